@@ -202,6 +202,7 @@ func NewWorld(seed int64, gorder []string, cfgs map[string]Cfg, asgs map[string]
 	w.J = NewJournal()
 	w.J.CurG = w.curGroup
 	w.AWS, w.EC2 = NewSimAWS(w.J)
+	w.AWS.ReadyK = 1 // a fleet that misses its readiness deadline does so with one instance already running (when it has more than one)
 	w.K = fake.NewSimpleClientset()
 	w.K.PrependReactor("*", "nodes", w.nodeReactor)
 	for _, g := range gorder {
